@@ -9,23 +9,28 @@ Four complete enumerations (all sharded by case index):
 
  (i)   EXPR   arithmetic expressions, complete to depth 2: 19 documented operators x the
               operand alphabet {0,1,2,3,7,255,256,65535,$FF,{a}}, both tree shapes, in fully
-              parenthesised / minimally parenthesised / spaced forms, wrapped in #EVAL(...)
-              (exact value) and #IF(...)(T,F) (truth value).
+              parenthesised / minimally parenthesised (/ spaced: depth 1, thorough all) forms,
+              wrapped in #EVAL(...) (exact value) and #IF(...)(T,F) (truth value).
  (ii)  MACRO  macro ASTs to nesting depth 3 (thorough: 4 over a reduced context alphabet) over
               #EVAL #N #IF #MAP #FOR #FOREACH #WHILE #FORMAT #CHR #STR #SPACE #PC #PEEK #(...)
-              and #DEF'd macros; every integer-parameter / string-parameter slot in every legal
-              style (complete product of styles to depth 2; at depth 3 all deviations from the
-              default style in <= 1 slot (thorough: <= 2) plus the 36 uniform styles).
+              and #DEF'd macros (leaves x integer contexts x string contexts x #() contexts x
+              loop bodies over the loop variable, plus self-contained #LET/#POKES/#PUSHS/#POPS/
+              #DEF composites); every integer-parameter / string-parameter slot in every legal
+              style: complete product of styles to depth 2; at depth 3 the simplest legal global
+              style, all deviations from it in one slot (thorough: also every pair of string
+              slots) and 84 global styles (integer style x string style per nesting level).
+              Every AST of depth <= 2 also under the other 8 base/case configurations.
  (iii) HIST   breadth-first explicit-state search over 14 state-changing macros to depth 4
               (thorough 5).  A state is the history reaching it: fresh real writers + replay.
               Canonical state = (variables, poked cells, snapshot stack contents, defined
               macros) of the *reference* state; successors are deduplicated by its hash for
-              further expansion, but the ~40 probe macros are expanded at *every* transition
+              further expansion, but the 32 probe macros are expanded at *every* transition
               target, so implementation state that the documented model does not have (e.g. a
               stale module-level cache) cannot hide behind a merged state.
- (iv)  TOOL   for the histories to depth 2 (thorough 3): the history as @expand directives and
-              every pure probe planted in 8 comment positions (+ a ref-file page) of a generated
-              skool file, through skool2asm.main / skool2html.main in-process.
+ (iv)  TOOL   for every distinct state to depth 2 (thorough 3): the history as @expand
+              directives and every pure probe planted in 8 comment positions (+ a ref-file
+              page) of a generated skool file, through skool2asm.main / skool2html.main
+              in-process.
 
 Oracle: expansion == macroast evaluation of the same AST in the same state (ASM and HTML
 writers separately); ASM expansion == html.unescape(HTML expansion) for mode-independent
